@@ -78,6 +78,11 @@ func (g *Gen) resolveType(env *Env, text string) types.Type {
 	if strings.HasPrefix(text, "[]") {
 		return types.NewSlice(g.resolveType(env, text[2:]))
 	}
+	if strings.HasPrefix(text, "map[") {
+		if j := strings.Index(text, "]"); j > 0 {
+			return types.NewMap(g.resolveType(env, text[4:j]), g.resolveType(env, text[j+1:]))
+		}
+	}
 	if text == "ref" {
 		return types.Typ[types.UnsafePointer]
 	}
@@ -887,6 +892,20 @@ func (g *Gen) findUFun(env *Env, name string) *UFun {
 // readHeaps resolves a `reads` item (Type.field or []Type) to heap names and sorts.
 func (g *Gen) readHeaps(env *Env, spec string) (names, sorts []string) {
 	spec = strings.TrimSpace(spec)
+	if strings.HasPrefix(spec, "map[") {
+		// map[K]V : the domain and value heaps of that map type
+		j := strings.Index(spec, "]")
+		mt := types.NewMap(g.resolveType(env, spec[4:j]), g.resolveType(env, spec[j+1:]))
+		ks := g.scalarSort(mt.Key())
+		base := "map:" + g.typeName(mt)
+		names = append(names, base+"#dom")
+		sorts = append(sorts, "(Array Int (Array "+ks+" Bool))")
+		for _, l := range g.leaves(mt.Elem()) {
+			names = append(names, base+"#val"+l.Path)
+			sorts = append(sorts, "(Array Int (Array "+ks+" "+l.Sort+"))")
+		}
+		return
+	}
 	if strings.HasPrefix(spec, "[]") {
 		et := g.resolveType(env, spec[2:])
 		for _, l := range g.leaves(et) {
